@@ -616,9 +616,13 @@ def run_race(ctx):
     for start in (rps.NEW, rps.PMGR_LAUNCHING):
         for na in PSTATES:
             for nb in PSTATES:
-                for via in ('state', 'control'):
-                    if via == 'control' and na != rps.PMGR_ACTIVE:
-                        continue        # `pilot_activate` carries that state
+                # A comes through the control subscriber thread (the agent's
+                # `pilot_activate` message, which carries PMGR_ACTIVE), B
+                # through the state subscriber thread.  Two state
+                # notifications never race: there is one such thread.
+                for via in ('control',):
+                    if na != rps.PMGR_ACTIVE:
+                        continue
                     if PVAL[na] <= PVAL[start] and PVAL[nb] <= PVAL[start]:
                         continue        # two late notifications: part (a)
                     jobs.append((start, na, nb, via, bound))
